@@ -279,7 +279,7 @@ func c30(c *hx.Ctx) {
 	c.Type = "c30_case"
 	c.ShardSize = 100
 	c.Agree = "c30_agree"
-	c.Rule = "ComputeProtocolHash equality pattern on (peer pair, protocol id, context) pairs incl. every boundary-shifted split of short strings; one real controller with constrained solicitations receiving an incoming solicited stream; two real controllers joined by an in-memory link with solicitations on both sides (peer and transport constraints varied, sometimes with a failing stream open); SolicitProtocol directives with one (protocol, context) and different constraints added in every order to one real controller bus; non-trivial = distinct case with an equality that holds / a directive that is matched"
+	c.Rule = "ComputeProtocolHash equality pattern on (peer pair, protocol id, context) pairs incl. every boundary-shifted split of short strings; one real controller with constrained solicitations receiving an incoming solicited stream; two real controllers joined by an in-memory link with solicitations on both sides (peer and transport constraints varied, sometimes with a failing stream open); SolicitProtocol directives with one (protocol, context) and different constraints added in every order to one real controller bus; link lifecycle scripts (match, lose the link, re-establish it with the same uuid, parallel link over other transports) with fixed solicitation sets; non-trivial = distinct case with an equality that holds / a directive that is matched"
 	uni := pairUniverse(c)
 
 	// 1. hash equality pattern
@@ -349,6 +349,15 @@ func c30(c *hx.Ctx) {
 
 	// 4. directives added to ONE real bus (de-duplication by IsEquivalent)
 	busRuns(c)
+
+	// 5. link lifecycle: relink with the same uuid, parallel links
+	nLife := c.N / 20
+	if nLife < 10 {
+		nLife = 10
+	}
+	for i := 0; i < nLife; i++ {
+		lifecycle(c, uni, i)
+	}
 }
 
 // hashCase runs the real hash functions on two (peer pair, pid, ctx) inputs,
@@ -774,6 +783,209 @@ func busRuns(c *hx.Ctx) {
 		}
 		busIncoming(c, sols, l, r, t, "one-bus-triple")
 	}
+}
+
+// lifecycle: two real controllers with FIXED solicitation sets; links between
+// them come up, are matched, go down, come up again with the same link uuid, or
+// come up in parallel (other uuid, other transports). At every settle point
+// each solicitation must have received exactly one new stream per new link on
+// which the other side solicits the same (protocol, context) and both sides'
+// constraints allow that link - the property on EVERY link, whatever happened
+// on earlier ones.
+func lifecycle(c *hx.Ctx, uni [][2][]byte, script int) {
+	pa, pb, other := twoPeers(c)
+	pool := smallPool(c, uni)
+	type linkDef struct {
+		ida, idb uint64
+		ta, tb   uint64
+	}
+	defs := []linkDef{{7, 9, 1, 1}, {8, 10, 2, 3}}
+	sa := genSols(c, pool, 1+c.Rng.Intn(3), pb, other, defs[c.Rng.Intn(2)].ta)
+	sb := genSols(c, pool, 1+c.Rng.Intn(3), pa, other, defs[c.Rng.Intn(2)].tb)
+	for _, l := range [][]solSpec{sa, sb} {
+		for i := range l {
+			if len(l[i].pid) == 0 {
+				l[i].pid = []byte("x")
+			}
+		}
+	}
+	// an unconstrained identical pair is always there: every link must match it
+	common := solSpec{pid: []byte("verif/common"), ctx: []byte{0xff, 0x00}}
+	sa, sb = append(sa, common), append(sb, common)
+
+	// scripts over (up k / down k / settle)
+	const (
+		up = iota
+		down
+		settleAct
+	)
+	type step struct{ kind, link int }
+	scripts := [][]step{
+		{{up, 0}, {settleAct, 0}, {down, 0}, {up, 0}, {settleAct, 0}},                                                     // relink, same uuid
+		{{up, 0}, {settleAct, 0}, {up, 1}, {settleAct, 0}},                                                                // parallel link
+		{{up, 0}, {settleAct, 0}, {down, 0}, {settleAct, 0}, {up, 0}, {settleAct, 0}, {down, 0}, {up, 0}, {settleAct, 0}}, // twice
+		{{up, 0}, {up, 1}, {settleAct, 0}, {down, 0}, {down, 1}, {up, 1}, {settleAct, 0}, {up, 0}, {settleAct, 0}},
+		{{up, 1}, {settleAct, 0}, {down, 1}, {up, 0}, {settleAct, 0}, {up, 1}, {settleAct, 0}},
+	}
+	sc := scripts[script%len(scripts)]
+
+	base := runtime.NumGoroutine()
+	na, nb := newNode(true), newNode(true)
+	for i := 0; i < len(sa) || i < len(sb); i++ {
+		if i < len(sa) {
+			na.addSol(sa[i])
+		}
+		if i < len(sb) {
+			nb.addSol(sb[i])
+		}
+	}
+	var la, lb [2]*fakeLink
+	var conns [2]*connSet
+	mk := func(k int) {
+		d := defs[k]
+		conns[k] = &connSet{}
+		la[k] = &fakeLink{uuid: d.ida, tpt: d.ta, local: peer.ID(pa), remote: peer.ID(pb), other: nb, conns: conns[k]}
+		lb[k] = &fakeLink{uuid: d.idb, tpt: d.tb, local: peer.ID(pb), remote: peer.ID(pa), other: na, conns: conns[k]}
+		la[k].otherLink, lb[k].otherLink = lb[k], la[k]
+	}
+	isUp := [2]bool{}
+	fresh := [2]bool{} // came up since the last settle
+	countA, countB := make([]int, len(sa)), make([]int, len(sb))
+	var newA, newB [][]int
+	var terms, names []string
+	expectTotal := int64(0)
+	deadline := time.Now().Add(20 * time.Second)
+	failed := false
+	desc := map[string]any{"kind": "link-lifecycle", "peerA": hx.Hex(pa), "peerB": hx.Hex(pb), "solicitationsA": solsDesc(sa), "solicitationsB": solsDesc(sb),
+		"links": "link 0: uuid 7/9 transports 1/1; link 1: uuid 8/10 transports 2/3 (same peers)"}
+	wantOn := func(mine, theirs []solSpec, i int, myRemote, theirRemote []byte, myT, theirT uint64) bool {
+		s := mine[i]
+		for _, t := range theirs {
+			if bytes.Equal(s.pid, t.pid) && bytes.Equal(s.ctx, t.ctx) && admitsGo(s, myRemote, myT) && admitsGo(t, theirRemote, theirT) {
+				return true
+			}
+		}
+		return false
+	}
+	for si, st := range sc {
+		switch st.kind {
+		case up:
+			if isUp[st.link] {
+				continue
+			}
+			mk(st.link)
+			nb.addLink(lb[st.link])
+			na.addLink(la[st.link])
+			isUp[st.link], fresh[st.link] = true, true
+			d := defs[st.link]
+			// the model names a link by one id: side a's uuid
+			terms = append(terms, hx.App("LinkUp", hx.Nat(int(d.ida)), sideTerm(pa, pb, d.ta), sideTerm(pb, pa, d.tb)))
+			names = append(names, fmt.Sprintf("up(link %d)", st.link))
+		case down:
+			if !isUp[st.link] {
+				continue
+			}
+			na.removeLink(la[st.link])
+			nb.removeLink(lb[st.link])
+			conns[st.link].closeAll()
+			isUp[st.link], fresh[st.link] = false, false
+			// let the control loops of that link end
+			for i := 0; i < 200; i++ {
+				time.Sleep(200 * time.Microsecond)
+				if i > 10 && runtime.NumGoroutine() <= base+2*(len(sa)+len(sb))+8 {
+					break
+				}
+			}
+			terms = append(terms, hx.App("LinkDown", hx.Nat(int(defs[st.link].ida))))
+			names = append(names, fmt.Sprintf("down(link %d)", st.link))
+		case settleAct:
+			// expected new deliveries (reference computation, bounds the wait and is the oracle)
+			wantA, wantB := make([]int, len(sa)), make([]int, len(sb))
+			for k := 0; k < 2; k++ {
+				if !fresh[k] {
+					continue
+				}
+				d := defs[k]
+				for i := range sa {
+					if wantOn(sa, sb, i, pb, pa, d.ta, d.tb) {
+						wantA[i]++
+						expectTotal++
+					}
+				}
+				for i := range sb {
+					if wantOn(sb, sa, i, pa, pb, d.tb, d.ta) {
+						wantB[i]++
+						expectTotal++
+					}
+				}
+				fresh[k] = false
+			}
+			settle(na, nb, expectTotal, deadline)
+			ra, rb := na.received(), nb.received()
+			var da, db []int
+			for i := range sa {
+				for j := countA[i]; j < len(ra[i]); j++ {
+					da = append(da, i)
+				}
+			}
+			for i := range sb {
+				for j := countB[i]; j < len(rb[i]); j++ {
+					db = append(db, i)
+				}
+			}
+			names = append(names, fmt.Sprintf("settle(newA=%v newB=%v)", da, db))
+			desc["history"] = strings.Join(names, "; ")
+			for i := range sa {
+				got := len(ra[i]) - countA[i]
+				if got != wantA[i] && !failed {
+					failed = true
+					key := "not-matched-on-new-link"
+					if got > wantA[i] {
+						key = "matched-without-identical-solicitation"
+					}
+					c.Failf(key, desc, "step %d: side A solicitation %d %s received %d new stream(s); %d link(s) came up on which the other side solicits the same protocol and context and all constraints allow the link", si, i, solDesc(sa[i]), got, wantA[i])
+				}
+				countA[i] = len(ra[i])
+			}
+			for i := range sb {
+				got := len(rb[i]) - countB[i]
+				if got != wantB[i] && !failed {
+					failed = true
+					key := "not-matched-on-new-link"
+					if got > wantB[i] {
+						key = "matched-without-identical-solicitation"
+					}
+					c.Failf(key, desc, "step %d: side B solicitation %d %s received %d new stream(s); %d link(s) came up on which the other side solicits the same protocol and context and all constraints allow the link", si, i, solDesc(sb[i]), got, wantB[i])
+				}
+				countB[i] = len(rb[i])
+			}
+			// everything counted so far is the new baseline for the bounded wait
+			expectTotal = na.total.Load() + nb.total.Load()
+			newA, newB = append(newA, da), append(newB, db)
+			terms = append(terms, "Settle")
+		}
+	}
+	na.close()
+	nb.close()
+	for k := range conns {
+		if conns[k] != nil {
+			conns[k].closeAll()
+		}
+	}
+	for i := 0; i < 2000 && runtime.NumGoroutine() > base; i++ {
+		time.Sleep(100 * time.Microsecond)
+	}
+	lst := func(l [][]int) string {
+		it := make([]string, len(l))
+		for i := range l {
+			it[i] = intsTerm(l[i])
+		}
+		return hx.List(it)
+	}
+	desc["history"] = strings.Join(names, "; ")
+	c.Case(hx.App("Life", solsTerm(sa), solsTerm(sb), hx.List(terms), lst(newA), lst(newB)), desc)
+	c.Class(fmt.Sprintf("lifecycle-script%d", script%len(scripts)))
+	c.Nontrivial("life" + fmt.Sprint(desc))
 }
 
 // twoNodes joins two real controllers by an in-memory link.
